@@ -4,7 +4,8 @@ network a positional misclosure of pct % of tol-abs (99, 101, 300 %; tol-abs 1, 
 Law: excluded <=> pct > 100; an excluded observation is listed under the outlying absolute
 terms and missing from the adjusted observations, and the result equals that of the input with
 the observation deleted; a kept one stays in the adjustment. Isolate: a point with a single
-determining element is removed and reported with a reason."""
+determining element is removed and reported with a reason. LoneSet: a direction set whose readings
+all go to one target is excluded; the result equals that of the input without the set."""
 import re
 import sessions, session, gl
 LEVEL = "exploration"
@@ -13,7 +14,7 @@ NOISE = "{0}"
 
 def run(ctx):
     q = ctx.quick
-    r, ss = sessions.generate(ctx, "c14", {"Templates": sessions.ALL_TEMPLATES, "NoiseSet": NOISE, "MaxEdits": 1, "EditKinds": '{"Blunder", "Isolate"}',
+    r, ss = sessions.generate(ctx, "c14", {"Templates": sessions.ALL_TEMPLATES, "NoiseSet": NOISE, "MaxEdits": 1, "EditKinds": '{"Blunder", "Isolate", "LoneSet", "WeakPoint"}',
                                            "KeepNet": 211 if q else 23, "KeepEdit": 5 if q else 1, "Seed": ctx.seed})
     ss = ss[:: max(1, len(ss) // (500 if q else 8000))]
     ctx.note("SurveySession: %d Blunder / Isolate sessions" % len(ss))
@@ -51,6 +52,29 @@ def run(ctx):
             report("run_" + cls, run.out[-600:])
             continue
         txt = (run.text or "") + run.out
+        if e["k"] == "WeakPoint":
+            # a point whose standard deviation exceeds 10 m is removed and reported; the result equals that of the input without it
+            run2, sv2, job2 = d["delete"]
+            if cls != "adjusted" or gl.classify(run2) != "adjusted":
+                report("weakpoint_outcome", "network with a practically undetermined point: %s, without it: %s" % (cls, gl.classify(run2)))
+                continue
+            nexcl += 1
+            wid = "0W" if e["s"] == 1 else "W"
+            if not re.search(r"^\s*%s\s+\S" % wid, txt, re.M):
+                report("weakpoint_unreported", "removed point %s is not listed with a reason in the text output" % wid)
+            session.check_law(session.project(run2.res, sv2), session.project(run.res, sv), {"k": "ExcludeVsDelete"},
+                              {"coords": "same", "obs": "same", "stats": "same", "cov": "same"}, sv2, sv, lambda c, m: report("weakpoint_vs_delete_" + c, m))
+            continue
+        if e["k"] == "LoneSet":
+            # a direction set with one target only is excluded: the result equals that of the input without it
+            run2, sv2, job2 = d["delete"]
+            if cls != "adjusted" or gl.classify(run2) != "adjusted":
+                report("loneset_outcome", "network with a single-target direction set: %s, without it: %s" % (cls, gl.classify(run2)))
+                continue
+            nexcl += 1
+            session.check_law(session.project(run2.res, sv2), session.project(run.res, sv), {"k": "ExcludeVsDelete"},
+                              {"coords": "same", "obs": "same", "stats": "same", "cov": "same"}, sv2, sv, lambda c, m: report("loneset_vs_delete_" + c, m))
+            continue
         if e["k"] == "Isolate":
             if cls != "adjusted":
                 report("isolate_outcome", "network with an isolated point is not adjusted (%s)" % cls)
